@@ -15,6 +15,7 @@ import (
 	"encoding/json"
 	"errors"
 	"fmt"
+	"reflect"
 	"runtime"
 	"sort"
 	"strings"
@@ -747,6 +748,45 @@ func (s *c08Sys) Key() string {
 		fmt.Fprintf(&sb, "%s=%v;", k, c08Cache(e)[k] == nil)
 	}
 	sb.WriteString("]")
+	sb.WriteString(c08Remembered(e))
+	return sb.String()
+}
+
+// c08Remembered: every other thing the entry REMEMBERS directly in its own fields, whatever they
+// are called - each field of a string, bool, integer or error type, by reflection (pointers,
+// funcs, the socket, the defragmenter and the last-activity clock are not decisions the entry
+// could replay). Two sessions with equal caches but a different remembered destination/verdict
+// are different states and are searched separately. On the pinned tree this adds only constants
+// (ID, closed) to the key. Added after the independently seeded change C08-12 (a one-entry
+// "same destination as the previous datagram" shortcut in front of the cache whose remembered
+// verdict went stale after a cache hit: hidden state the key merged away).
+func c08Remembered(e *udpSessionEntry) string {
+	var sb strings.Builder
+	t := reflect.TypeOf(e).Elem()
+	errT := reflect.TypeOf((*error)(nil)).Elem()
+	for i := 0; i < t.NumField(); i++ {
+		f := t.Field(i)
+		v, ok := vpriv.Field(e, f.Name)
+		if !ok {
+			continue
+		}
+		switch {
+		case f.Type == errT:
+			if v.IsNil() {
+				fmt.Fprintf(&sb, " %s=nil", f.Name)
+			} else {
+				fmt.Fprintf(&sb, " %s=err(%v)", f.Name, v.Interface())
+			}
+		case f.Type.Kind() == reflect.String:
+			fmt.Fprintf(&sb, " %s=%q", f.Name, v.String())
+		case f.Type.Kind() == reflect.Bool:
+			fmt.Fprintf(&sb, " %s=%v", f.Name, v.Bool())
+		case f.Type.Kind() >= reflect.Int && f.Type.Kind() <= reflect.Int64:
+			fmt.Fprintf(&sb, " %s=%d", f.Name, v.Int())
+		case f.Type.Kind() >= reflect.Uint && f.Type.Kind() <= reflect.Uintptr:
+			fmt.Fprintf(&sb, " %s=%d", f.Name, v.Uint())
+		}
+	}
 	return sb.String()
 }
 
@@ -835,7 +875,7 @@ func c08Search(sh *evidence.Shard) {
 		"operations":           "complete unfragmented datagram to d_i (session id fixed) x owned eviction victim (rank among the sorted cached entries, only when the step evicts); cleanup of all sessions",
 		"maxSessionACLCache":   fmt.Sprintf("%d (rewritten from 256 so that %d destinations overflow it)", maxSessionACLCache, c08SearchN),
 		"after_each_datagram":  "one reply from the last forwarded destination is pushed through the real receive loop",
-		"canonical_state_key":  "session/socket exists, OverrideAddr, OriginalAddr, sorted aclCache entries with verdicts",
+		"canonical_state_key":  "session/socket exists, OverrideAddr, OriginalAddr, sorted aclCache entries with verdicts, and every other string/bool/integer/error field of the entry (whatever else it remembers, by reflection)",
 		"max_depth":            depth,
 		"eviction_victim_note": "the real code deletes an arbitrary map element; after the step the harness swaps the evicted entry for the enumerated one, so all victims are covered and replays are deterministic; the oracle never depends on the victim",
 	}
@@ -909,7 +949,188 @@ func c08ReplaySearch(part string, raw json.RawMessage) (bool, bool, string) {
 }
 
 func TestVerifC08Search(t *testing.T) {
-	evidence.Main(t, "C08", evidence.Seq{Run: func(sh *evidence.Shard) { c08Search(sh); c08NotePriv(sh) }, Replay: c08ReplaySearch})
+	evidence.Main(t, "C08", evidence.Seq{Run: func(sh *evidence.Shard) { c08Search(sh); c08Sequences(sh); c08NotePriv(sh) }, Replay: func(part string, raw json.RawMessage) (bool, bool, string) {
+		if part == "sequences" {
+			return c08ReplaySeq(part, raw)
+		}
+		return c08ReplaySearch(part, raw)
+	}})
+}
+
+// ---------------------------------------------------------------------------------------------
+// plain SEQUENCES of one session, no state merging (same units as the search). The search merges
+// histories that reach the same canonical key; its verdict for long histories rests on the key
+// naming everything the session remembers. This part does not rest on any key: every sequence of
+// exactly L operations over {datagram to d_0..d_{n-1}, cleanup} is run on a fresh manager, for
+// every policy on the n destinations, hook off/on, judged by the same per-datagram oracle
+// (c08World.datagram) - so repeats of a rejected destination back to back, after a cache hit,
+// after a fresh lookup of another destination, after a cleanup ... are all there literally.
+// Added after the independently seeded change C08-12 (a one-entry "same destination as the
+// previous datagram" shortcut in front of the cache whose remembered verdict went stale after a
+// cache hit; it needs the history a,R,b,R,R and lived in fields the search key did not name).
+
+type c08SeqCase struct {
+	Cap    int   `json:"cache_capacity"`
+	NDest  int   `json:"destinations"`
+	Policy int   `json:"policy"` // bit i: d_i allowed (the hook address is allowed)
+	Hook   bool  `json:"hook"`   // rewrites every session's first destination to h
+	Seq    []int `json:"seq"`    // i >= 0: datagram to d_i; -1: cleanup
+}
+
+func (c *c08SeqCase) String() string {
+	var al, dn, ops []string
+	for i := 0; i < c.NDest; i++ {
+		if c.Policy&(1<<i) != 0 {
+			al = append(al, fmt.Sprintf("d%d", i))
+		} else {
+			dn = append(dn, fmt.Sprintf("d%d", i))
+		}
+	}
+	for _, x := range c.Seq {
+		ops = append(ops, c08Op{D: x}.String())
+	}
+	return fmt.Sprintf("allow{%s}deny{%s},hook=%v,seq=%s", strings.Join(al, ","), strings.Join(dn, ","), c.Hook, strings.Join(ops, ","))
+}
+
+// c08RunSeq runs the case on a fresh manager; failedAt is the index of the violating operation,
+// shape has one letter per executed operation (F forwarded, x not forwarded, c cleanup).
+func c08RunSeq(c *c08SeqCase) (verr error, failedAt int, shape string) {
+	if c.NDest < 1 || c.NDest > len(c08Dests) {
+		return c08Bad("unknown-case", "%d destinations", c.NDest), 0, ""
+	}
+	ds := c08Dests[:c.NDest]
+	allow := func(a string) bool {
+		if a == c08HookAddr {
+			return true
+		}
+		for i, d := range ds {
+			if d == a {
+				return c.Policy&(1<<i) != 0
+			}
+		}
+		return false
+	}
+	var hook func(string) (string, bool)
+	if c.Hook {
+		hook = func(string) (string, bool) { return c08HookAddr, true }
+	}
+	w := c08NewWorld(allow, hook, append(append([]string{}, ds...), c08HookAddr))
+	defer w.teardown()
+	var sb strings.Builder
+	for i, x := range c.Seq {
+		if x >= c.NDest {
+			return c08Bad("unknown-case", "destination d%d", x), i, sb.String()
+		}
+		if x < 0 {
+			if err := w.cleanupOp(); err != nil {
+				return err, i, sb.String()
+			}
+			sb.WriteByte('c')
+			continue
+		}
+		n0, _ := w.totalWrites()
+		if err := w.datagram(ds[x], -1); err != nil {
+			return err, i, sb.String()
+		}
+		if n1, _ := w.totalWrites(); n1 > n0 {
+			sb.WriteByte('F')
+		} else {
+			sb.WriteByte('x')
+		}
+	}
+	return nil, -1, sb.String()
+}
+
+func c08Sequences(sh *evidence.Shard) {
+	env := sh.Env()
+	p := sh.Part("sequences", "enum")
+	n, length := 3, 5
+	if env.Thorough() {
+		n, length = 4, 6
+	}
+	p.Alphabet = map[string]any{
+		"destinations":       c08Dests[:n],
+		"operations":         "complete unfragmented datagram to d_i; cleanup of all sessions",
+		"sequence":           fmt.Sprintf("every sequence of exactly %d operations in one session id on a fresh manager (every shorter sequence is a prefix, judged step by step), NO state merging; one simulated reply after every forwarded datagram", length),
+		"policies":           fmt.Sprintf("every allow/deny predicate on the %d destinations (%d); the hook address is allowed", n, 1<<n),
+		"hook":               []string{"off", "rewrites every session's first destination to h"},
+		"maxSessionACLCache": maxSessionACLCache,
+		"eviction_note":      "where the destinations overflow the cache (thorough tier, capacity 3) the victim is whatever Go's map order picks; the oracle never depends on it",
+	}
+	p.Bounds = map[string]any{"sequence_len": length, "destinations": n}
+	nSeq := 1
+	for i := 0; i < length; i++ {
+		nSeq *= n + 1
+	}
+	var item int64
+	seen := map[string]bool{}
+	for pol := 0; pol < 1<<n; pol++ {
+		for _, hk := range []bool{false, true} {
+			for s := 0; s < nSeq; s++ {
+				item++
+				if !env.Mine(item) {
+					continue
+				}
+				if item&1023 == 0 && env.Expired() {
+					p.Exhaustive = false
+					p.Note("deadline: cases before #%d of this shard completely covered", item)
+					return
+				}
+				c := &c08SeqCase{Cap: maxSessionACLCache, NDest: n, Policy: pol, Hook: hk}
+				for k, r := 0, s; k < length; k, r = k+1, r/(n+1) {
+					c.Seq = append(c.Seq, r%(n+1)-1)
+				}
+				p.Evaluations++
+				var verr error
+				var at int
+				var shape string
+				if val, stack := evidence.Catch(func() { verr, at, shape = c08RunSeq(c) }); val != nil {
+					verr = c08Bad("panic", "%v at %s", val, evidence.PanicSite(stack))
+				}
+				p.Count("operations", int64(len(c.Seq)))
+				p.Class(pol, hk, shape, verr == nil)
+				if p.Evaluations%251 == 7 {
+					p.Sample(c)
+				}
+				if verr != nil {
+					clause := "error"
+					var ce *c08Err
+					if errors.As(verr, &ce) {
+						clause = ce.Clause
+					}
+					// minimal case: the prefix up to the violating operation (reported once)
+					if at >= 0 && at < len(c.Seq) {
+						c.Seq = c.Seq[:at+1]
+					}
+					sig := fmt.Sprintf("sequences/cap=%d/%s/%s", maxSessionACLCache, clause, c)
+					if seen[sig] {
+						continue
+					}
+					seen[sig] = true
+					sh.Violate(p.Name, sig, fmt.Sprintf("%s at operation #%d of %s: %v", clause, at+1, c, verr), c)
+					if len(seen) >= 4 {
+						p.Exhaustive = false
+						p.Note("stopped after 4 reported violations in this shard (remaining cases not run)")
+						return
+					}
+				}
+			}
+		}
+	}
+}
+
+func c08ReplaySeq(part string, raw json.RawMessage) (bool, bool, string) {
+	var c c08SeqCase
+	if err := json.Unmarshal(raw, &c); err != nil {
+		return true, false, err.Error()
+	}
+	if c.Cap != maxSessionACLCache {
+		return false, false, "" // recorded by the unit built with another capacity
+	}
+	if verr, at, _ := c08RunSeq(&c); verr != nil {
+		return true, true, fmt.Sprintf("%v [operation #%d of %s]", verr, at+1, &c)
+	}
+	return true, false, "sequence runs without violation"
 }
 
 // ---------------------------------------------------------------------------------------------
